@@ -82,6 +82,12 @@ def op_sx(op):
         return "(%s)" % k
     if k == "modinfo":
         return "(modinfo %d)" % op[1]
+    if k in ("plcname", "plctime"):
+        return "(%s)" % k
+    if k == "plcinfo":
+        return "(plcinfo %s)" % ("T" if op[1] else "F")
+    if k == "setplctime":
+        return "(setplctime %d)" % op[1]
     if k == "gm":
         a = op[1]
         return "(gm %d %s %s %s %s %s %s %s %s %s)" % (
@@ -133,8 +139,13 @@ def run_impl(model, scn, path, auto, faults, rnd, ops, driver_cls=None):
     cd.Socket = lambda *a, **k: NetSocket(shared)
     results = []
     try:
-        class Drv(driver_cls or cd.CIPDriver):
-            _auto_slot_cip_path = auto
+        if driver_cls is not None:
+            class Drv(driver_cls):
+                _auto_slot_cip_path = auto
+                open = cd.CIPDriver.open      # session only: no controller initialisation
+        else:
+            class Drv(cd.CIPDriver):
+                _auto_slot_cip_path = auto
         d = Drv(path)
 
         def do(op):
@@ -152,6 +163,16 @@ def run_impl(model, scn, path, auto, faults, rnd, ops, driver_cls=None):
                 if k == "modinfo":
                     r = d.get_module_info(op[1])
                     return "(identity %s)" % sx.val(r)
+                if k == "plcname":
+                    return "(ok %s)" % sx.val(d.get_plc_name())
+                if k == "plcinfo":
+                    d._micro800 = op[1]
+                    return "(identity %s)" % sx.val(d.get_plc_info())
+                if k == "plctime":
+                    t = d.get_plc_time()
+                    return "(time %s %s)" % (sx.val(t.value["microseconds"]) if t.value else "N", canon_err(t.error))
+                if k == "setplctime":
+                    return tag_str(d.set_plc_time(op[1]))
                 if k == "gm":
                     a = dict(op[1])
                     dt = a.pop("dt", None)
@@ -329,7 +350,7 @@ def monitor_frames(ctx, owner_focus, run, case):
         import re
         for m in re.finditer(r"\(violation \(s([0-9 ]*)\)\)", run["log"]):
             text = "".join(chr(int(c)) for c in m.group(1).split())
-            if text.startswith("malformed") or "common packet" in text or "session" in text or "not open" in text:
+            if text.startswith("malformed encapsulation") or "common packet" in text or "non-zero status" in text or "bad body" in text:
                 ctx.violation("target-rejected-frame:" + text.split(":")[0][:40], case, text)
 
 
@@ -410,12 +431,13 @@ def random_faults(rng, n_ops):
     return {(kind, k): ("raise" if kind == "recv" else rng.choice(["raise", "drop"]))}
 
 
-def run_case(ctx, model, lines, pend, stream, focus, scn, path, auto, faults, rnd, ops, extra_case=None, check=None):
+def run_case(ctx, model, lines, pend, stream, focus, scn, path, auto, faults, rnd, ops, extra_case=None, check=None,
+             driver_cls=None):
     case = {"scenario": scn, "path": path, "auto": auto, "faults": [[k[0], k[1], v] for k, v in faults.items()],
             "rnd": [r.hex() for r in rnd], "ops": [op_sx(o) for o in ops]}
     if extra_case:
         case.update(extra_case)
-    impl = run_impl(model, scn, path, auto, faults, rnd, ops)
+    impl = run_impl(model, scn, path, auto, faults, rnd, ops, driver_cls=driver_cls)
     ctx.case(stream, (stream, scn, path, repr(faults), tuple(case["ops"])))
     monitor_frames(ctx, focus, impl, case)
     if check:
@@ -435,20 +457,44 @@ def flush(ctx, model, lines, pend):
 
 
 def run_c17(ctx, model):
-    """long connected histories crossing the 16-bit wrap: sequence counts on the wire"""
+    """connected histories crossing the 16-bit wrap: sequence counts on the wire.
+    quick: the counter is advanced to just before the wrap and 600 messages of mixed kinds cross it;
+    thorough: a full 140 000-message history from a fresh driver."""
+    import pycomm3.cip_driver as cd
     rng = ctx.rng
-    lines, pend = [], []
-    n = ctx.budget(66000, 140000)
     scn, _, _ = gen_base(rng, policy=(True, True, True), generic=(0, (), b"\x01"))
-    ops = [("open",)] + [("gm", {"service": 1, "class_code": 0x70, "instance": 1, "connected": True, "name": "g"})] * n
-    impl = run_impl(model, scn, "10.0.0.1/bp/0", False, {}, [b"\x11" * 8], ops)
-    case = {"ops": "open + %d connected generic messages" % n}
-    monitor_frames(ctx, "C17", impl, case)
-    ctx.case("driver-seq", ("wrap", n))
+    assert model.ask("target.new " + scn) == "ok"
+    shared = SharedNet(model, {})
+    d = cd.CIPDriver("10.0.0.1/bp/0")
+    d._sock = NetSocket(shared)
+    d.open()
+    skip = 0 if ctx.tier == "thorough" else 65535 * rng.choice([1, 2]) - rng.randint(100, 400)
+    for _ in range(skip):
+        next(d._sequence)
+    n = 140000 if ctx.tier == "thorough" else 900
+    for i in range(n):
+        d.generic_message(service=1, class_code=0x70, instance=1, connected=True, name="g")
+        if i % 5000 == 0:
+            model.ask("target.log")          # keep the target's event log short
+    log = model.ask("target.log")
+    d.close()
+    frames = [f for f in shared.frames if f[:2] == b"\x70\x00"]
+    seqs = [struct.unpack_from("<H", f, 44)[0] for f in frames]
+    ctx.case("driver-seq", ("wrap", n, skip))
     ctx.evaluations += n
-    seqs = [struct.unpack_from("<H", f, 44)[0] for f in impl["frames"] if f[:2] == b"\x70\x00"]
-    ctx.extra["driver_sequence_history"] = {"connected_messages": len(seqs), "first": seqs[:3], "around_wrap": seqs[65533:65538]}
+    case = {"ops": "open, counter advanced by %d, %d connected generic messages" % (skip, n)}
+    for i in range(1, len(seqs)):
+        if seqs[i] == seqs[i - 1]:
+            ctx.violation("sequence-count-repeated", dict(case, index=i), "count %d on two consecutive connected messages" % seqs[i])
+            break
+    if "repeated on consecutive" in "".join(chr(int(c)) for m in __import__("re").finditer(r"\(violation \(s([0-9 ]*)\)\)", log) for c in m.group(1).split()):
+        ctx.violation("target-saw-duplicate-sequence-count", case, "the reference target's duplicate detection fired")
+    wrap_at = next((i for i, s in enumerate(seqs) if i and s < seqs[i - 1]), None)
+    ctx.extra["driver_sequence_history"] = {"connected_messages": len(seqs), "first": seqs[:3],
+                                            "around_wrap": seqs[max(0, (wrap_at or 2) - 2):(wrap_at or 2) + 3], "wrapped": wrap_at is not None}
     # the model's closed form predicts every count on the wire
-    bad = [i for i, s in enumerate(seqs) if s != 1 + i % 65535]
+    bad = [i for i, s in enumerate(seqs) if s != 1 + (skip + i) % 65535]
     if bad:
-        ctx.mismatch("driver-seq", {"index": bad[0]}, str(seqs[bad[0]]), str(1 + bad[0] % 65535))
+        ctx.mismatch("driver-seq", {"index": bad[0]}, str(seqs[bad[0]]), str(1 + (skip + bad[0]) % 65535))
+    if wrap_at is None:
+        ctx.notes.append("driver-level history did not cross the wrap (unexpected)")
